@@ -24,19 +24,18 @@ LEVEL_TEXT = (
     "fmt6(x/dim)*dim; likewise lists and tabulated functions; over the reals, with |fmt6 y - y| <= 5e-6|y| as an explicit premise, every entry is within 5e-6 relative. "
     "NOT theorems (checked per run by correspondence and implementation-side predicates): that iostreams implement such an fmt6 (the real writer/reader run on tables "
     "1..200 x 1..12, values over 600 decades, units over 60 decades, multi-line and numeric headers), that the compilers' folded static values are the denotation "
-    "(each build's constants are read after start-up and compared with the exact denotation), Round's numerical accuracy (property C17), files whose header lines "
-    "exceed 10000 characters, values whose quotient by the unit is not a normal finite double (excluded and counted).")
+    "(each build's constants are read after start-up and compared with the exact denotation), Round's numerical accuracy (property C17), the character-level skipping of header lines (probed with lines of up to 25000 characters), values whose quotient by the unit is not a normal finite double (excluded and counted).")
 LEVEL_NOTE = ("Coq 8.16.1 kernel; theorems over R use the standard library's real-number axioms (listed), shape theorems are axiom-free; T-tie translator tools/units2v.py "
               "(line-level parser; rejects anything it does not understand) validated each run by comparing every constant of four real builds with the exact "
               "rational evaluation of the parsed expressions; premise fmt6 accuracy inside the precision theorems; file = list of lines of tokens (character level, "
-              "ignore(10000) limit, unopenable output paths not modelled)")
+              "unopenable output paths not modelled)")
 TOL = (1e-12, 0.0)
 TRUSTED = ["fmt6 (the double read back by operator>> from the text operator<< writes at the default precision 6) is instantiated in the OCaml driver as "
            "float_of_string (sprintf \"%.6g\" y); model and library then agree bit for bit on the values read back",
            "tools/units2v.py (translator of the constants section of Natural_Units.cpp) and nm's symbol sections (.rodata = static, .bss = dynamic initialisation)",
            "that a constant placed in .rodata holds the correctly rounded value of its folded initialiser is the compiler's responsibility; it is checked by reading every "
            "constant after start-up in each of the four builds"]
-ASSUMPTIONS = ["header lines shorter than 10000 characters (ignore(10000,'\\n'))", "x/dim is zero or a normal finite double and the text form does not overflow on re-reading "
+ASSUMPTIONS = ["a header line is skipped whatever its length (ignore(max,'\\n') since the repair; probed up to 25000 characters)", "x/dim is zero or a normal finite double and the text form does not overflow on re-reading "
                "(cases outside are excluded from generation and counted in coverage.excluded_not_finite_normal)",
                "row count and row*column count below 2^32 (unsigned int arithmetic of Import_Table)"]
 EXCLUDED = {"n": 0}
@@ -340,7 +339,7 @@ def predicates(c, io):
         if not (0 < y <= min(a, b) * (1 + 2 * EPS)): out.append(("reduced_mass:below", f"{y!r} is not in (0, min(m1,m2)]"))
     elif op == "rt_list":
         r.w(); h = unhexs(r.w()); data = r.l(); d = r.f()
-        if any(len(l) >= 10000 for l in h.split("\n")): op = "rt_list:long-header"      # ignore(10000,'\n') does not skip such a line
+        if any(len(l) >= 10000 for l in h.split("\n")): op = "rt_list:long-header"      # the skipping of long lines is probed separately (a line of >= 10000 characters used not to be skipped)
         if io.startswith("EXIT"): return [(op + ":exit", "list round trip terminated the process")]
         if v[0] != hlines(h) + len(data): out.append((op + ":count-lines", f"Count_Lines = {v[0]}, written {hlines(h)} header + {len(data)} data lines"))
         got = v[2:2 + v[1]]
@@ -607,8 +606,8 @@ def extra(ctx, rng):
                                          "all_dynamic_classification_would_be_safe": (m.group(1) == "true") if m else None}
     elif measured:
         out["safe_by_vm_compute"] = {"ok": False, "log": "C20_Proofs_Units.vo is not built (see the broken theorem); Coq check of the measured classification skipped"}
-    # header lines at the limit of ignore(10000,'\n'): implementation-side predicates only (the line/token model has no
-    # character count); a failure here is listed in known_findings.d/C20.json while it is in the tree
+    # very long header lines (the former ignore(10000,'\n') limit): implementation-side predicates only (the line/token model has no
+    # character count)
     try:
         import vcheck
         probes = []
